@@ -419,27 +419,35 @@ func c02ReferenceChecks(c *core.Ctx, reg *types.Named) {
 	c.Analysed(facts.FuncName(cm))
 	// (a) manifests store dominated by checkManifest == nil
 	n := 0
-	for _, b := range pm.Blocks {
-		for _, in := range b.Instrs {
-			mu, ok := in.(*ssa.MapUpdate)
-			if !ok {
-				continue
-			}
-			if f, ok := memMapField(mu.Map); !ok || f != "manifests" {
-				continue
-			}
-			n++
-			guarded := false
-			for _, cd := range facts.CondsAt(b) {
-				if x, isNil, ok := facts.NilCheck(cd); ok && isNil {
-					if ex, ok := facts.Resolve(x).(*ssa.Extract); ok {
-						if call, ok := ex.Tuple.(*ssa.Call); ok && call.Call.StaticCallee() == cm {
-							guarded = true
+	var scope []*ssa.Function
+	for _, f := range withHelpers(pm) {
+		if f != cm && f.Parent() == nil {
+			scope = append(scope, f)
+		}
+	}
+	for _, f := range scope {
+		for _, b := range f.Blocks {
+			for _, in := range b.Instrs {
+				mu, ok := in.(*ssa.MapUpdate)
+				if !ok {
+					continue
+				}
+				if f, ok := memMapField(mu.Map); !ok || f != "manifests" {
+					continue
+				}
+				n++
+				guarded := false
+				for _, cd := range condsAtUp(b, 2) {
+					if x, isNil, ok := facts.NilCheck(cd); ok && isNil {
+						if ex, ok := facts.Resolve(x).(*ssa.Extract); ok {
+							if call, ok := ex.Tuple.(*ssa.Call); ok && call.Call.StaticCallee() == cm {
+								guarded = true
+							}
 						}
 					}
 				}
+				c.Check(guarded, "C02.R2", "PushManifest/store-after-check", in.Pos(), "manifest stored only after checkManifest succeeded", "a manifest is stored on a path where checkManifest may have failed or was not called: manifests with missing references are accepted")
 			}
-			c.Check(guarded, "C02.R2", "PushManifest/store-after-check", in.Pos(), "manifest stored only after checkManifest succeeded", "a manifest is stored on a path where checkManifest may have failed or was not called: manifests with missing references are accepted")
 		}
 	}
 	if n == 0 {
